@@ -809,9 +809,10 @@ structure Inv (K : Kind) (cfg : Cfg) (st : State) (m : Mon) : Prop where
   gsob : BLe m.gs m.ob
   obgs : (observe cfg st).unavail = false → m.ob = m.gs
   cache : CInv K st.cache m
+  leader : m.leader = st.leader
 
 theorem inv_init (K : Kind) (cfg : Cfg) : Inv K cfg {} {} := by
-  refine ⟨rfl, by decide, rfl, rfl, ?_, ?_, BLe.refl _, fun _ => rfl, rfl⟩
+  refine ⟨rfl, by decide, rfl, rfl, ?_, ?_, BLe.refl _, fun _ => rfl, rfl, rfl⟩
   · cases cfg with | mk rl cs => cases rl <;> rfl
   · constructor <;> simp [maxInt32] <;> decide
 
@@ -970,7 +971,8 @@ theorem inv_of_frame {K : Kind} {cfg : Cfg} {st st' : State} {m m' : Mon} (hi : 
     (hc : st'.cache = st.cache) (e_schema : m'.schema = m.schema) (e_synced : m'.synced = m.synced)
     (e_gs : m'.gs = m.gs) (e_ob : m'.ob = if (observe cfg st').unavail then m.ob.sup m.gs else m.gs)
     (e_prev : m'.prev = observe cfg st') (e_meter : m'.meter = st'.meter) (hmok : 0 < st'.meter.rateDen)
-    (e_sh : m'.shards = st'.shardCount) (e_hb : HBInv st'.hb m'.hist) : Inv K cfg st' m' := by
+    (e_sh : m'.shards = st'.shardCount) (e_hb : HBInv st'.hb m'.hist) (e_leader : m'.leader = st'.leader) :
+    Inv K cfg st' m' := by
   have hun : (observe cfg st').unavail = (observe cfg st).unavail := by
     rw [observe_unavail, observe_unavail, gfcOf_cache hc]
   have hob : m'.ob = m.ob := by
@@ -978,7 +980,7 @@ theorem inv_of_frame {K : Kind} {cfg : Cfg} {st st' : State} {m m' : Mon} (hi : 
     cases hu : (observe cfg st).unavail with
     | true => simp only [if_true]; exact sup_eq_left hi.gsob
     | false => simp only [Bool.false_eq_true, if_false]; exact (hi.obgs hu).symm
-  refine ⟨e_meter, hmok, e_sh, e_hb, e_prev, by rw [e_gs]; exact hi.gsOK, by rw [e_gs, hob]; exact hi.gsob, ?_, ?_⟩
+  refine ⟨e_meter, hmok, e_sh, e_hb, e_prev, by rw [e_gs]; exact hi.gsOK, by rw [e_gs, hob]; exact hi.gsob, ?_, ?_, e_leader⟩
   · intro hu
     rw [hob, e_gs]
     exact hi.obgs (by rw [← hun]; exact hu)
@@ -1003,7 +1005,8 @@ theorem step_shards {K : Kind} {cfg : Cfg} {st : State} {m : Mon} (hi : Inv K cf
   · simp [Mon.next]; exact hi.meter
   · exact hi.meterOK
   · simp [Mon.next]
-  · simp [Mon.next]; exact hi.hb
+  · simp [Mon.next, leaderChange]; exact hi.hb
+  · simp [Mon.next, leaderChange]; exact hi.leader
 
 theorem step_meter {K : Kind} {cfg : Cfg} {st : State} {m : Mon} (hi : Inv K cfg st m) (x : Meter)
     (hx : 0 < x.rateDen) : StepOK K cfg st m (.meter x) := by
@@ -1018,7 +1021,8 @@ theorem step_meter {K : Kind} {cfg : Cfg} {st : State} {m : Mon} (hi : Inv K cfg
   · simp [Mon.next]
   · exact hx
   · simp [Mon.next]; exact hi.shards
-  · simp [Mon.next]; exact hi.hb
+  · simp [Mon.next, leaderChange]; exact hi.hb
+  · simp [Mon.next, leaderChange]; exact hi.leader
 
 theorem step_hb {K : Kind} {cfg : Cfg} {st : State} {m : Mon} (hi : Inv K cfg st m) (ok : Bool) (now : Int)
     (other : Bool) : StepOK K cfg st m (.hb ok now other) := by
@@ -1035,7 +1039,8 @@ theorem step_hb {K : Kind} {cfg : Cfg} {st : State} {m : Mon} (hi : Inv K cfg st
     · simp [Mon.next]; exact hi.meter
     · exact hi.meterOK
     · simp [Mon.next]; exact hi.shards
-    · simp [Mon.next]; exact hi.hb
+    · simp [Mon.next, leaderChange]; exact hi.hb
+    · simp [Mon.next, leaderChange]; exact hi.leader
   | false =>
     refine ⟨{ st with hb := some (hbStep (st.hb.getD {}) ok now) }, rfl, ?_, rfl⟩
     apply inv_of_frame hi (st' := { st with hb := some (hbStep (st.hb.getD {}) ok now) })
@@ -1049,6 +1054,7 @@ theorem step_hb {K : Kind} {cfg : Cfg} {st : State} {m : Mon} (hi : Inv K cfg st
     · exact hi.meterOK
     · simp [Mon.next]; exact hi.shards
     · simp [Mon.next]; exact hbStep_inv hi.hb ok now
+    · simp [Mon.next, leaderChange]; exact hi.leader
 
 theorem observe_unavail_noremote {cfg : Cfg} {st : State} {c : Cache} (hc : st.cache = some c) (hr : c.remote = none) :
     (observe cfg st).unavail = false := by
@@ -1068,14 +1074,15 @@ theorem step_schema {K : Kind} {cfg : Cfg} {st : State} {m : Mon} (hi : Inv K cf
       · simp [step, hcache, VS_newLim hs]
       · have hun := observe_unavail_noremote (cfg := cfg)
           (st := { st with cache := some { loc := { config := s, fc := some (limOf s) }, remote := none } }) rfl rfl
-        refine ⟨?_, hi.meterOK, ?_, ?_, rfl, ?_, ?_, ?_, ?_⟩
+        refine ⟨?_, hi.meterOK, ?_, ?_, rfl, ?_, ?_, ?_, ?_, ?_⟩
         · simp [Mon.next]; exact hi.meter
         · simp [Mon.next]; exact hi.shards
-        · simp [Mon.next]; exact hi.hb
+        · simp [Mon.next, leaderChange]; exact hi.hb
         · simp [Mon.next, effective]; exact hi.gsOK
         · simp [Mon.next, effective, hun]; exact BLe.refl _
         · intro _; simp [Mon.next, effective, hun]
         · simp [CInv, Mon.next, hsch, hs, hc]
+        · simp [Mon.next, leaderChange]; exact hi.leader
   | some c =>
     cases hsch : m.schema with
     | none => rw [hcache, hsch] at hc; exact hc.elim
@@ -1090,14 +1097,15 @@ theorem step_schema {K : Kind} {cfg : Cfg} {st : State} {m : Mon} (hi : Inv K cf
         · have hun := observe_unavail_noremote (cfg := cfg)
             (st := { st with cache := some { loc := { config := s, fc := some (limOf s) }, remote := none } }) rfl rfl
           simp only [Bool.and_eq_true, decide_eq_true_eq, Bool.not_eq_true'] at hstop
-          refine ⟨?_, hi.meterOK, ?_, ?_, rfl, ?_, ?_, ?_, ?_⟩
+          refine ⟨?_, hi.meterOK, ?_, ?_, rfl, ?_, ?_, ?_, ?_, ?_⟩
           · simp [Mon.next]; exact hi.meter
           · simp [Mon.next]; exact hi.shards
-          · simp [Mon.next]; exact hi.hb
+          · simp [Mon.next, leaderChange]; exact hi.hb
           · simp [Mon.next, effective]; exact hi.gsOK
           · simp [Mon.next, effective, hun]; exact BLe.refl _
           · intro _; simp [Mon.next, effective, hun]
           · simp [CInv, Mon.next, hsch, hs, hstop.1, hstop.2, VS_guess hs, VS_guess h2]
+          · simp [Mon.next, leaderChange]; exact hi.leader
       · -- nothing else changes
         have hstop' : (decide (s ≠ old) && !enableGlobal s) = false := by simpa using hstop
         refine ⟨{ st with cache := some { loc := { config := s, fc := some (limOf s) }, remote := c.remote } }, ?_, ?_, rfl⟩
@@ -1115,10 +1123,10 @@ theorem step_schema {K : Kind} {cfg : Cfg} {st : State} {m : Mon} (hi : Inv K cf
             rcases hstop' with h | h
             · simp [h]
             · simp [h]
-          refine ⟨?_, hi.meterOK, ?_, ?_, rfl, ?_, ?_, ?_, ?_⟩
+          refine ⟨?_, hi.meterOK, ?_, ?_, rfl, ?_, ?_, ?_, ?_, ?_⟩
           · simp [Mon.next]; exact hi.meter
           · simp [Mon.next]; exact hi.shards
-          · simp [Mon.next]; exact hi.hb
+          · simp [Mon.next, leaderChange]; exact hi.hb
           · simp [Mon.next, effective]; exact hi.gsOK
           · simp only [Mon.next, effective, Bool.false_eq_true, if_false, hun, hob]; exact hi.gsob
           · intro hu
@@ -1127,6 +1135,7 @@ theorem step_schema {K : Kind} {cfg : Cfg} {st : State} {m : Mon} (hi : Inv K cf
             exact hi.obgs hu
           · simp only [CInv, Mon.next, hsch, effective, Bool.false_eq_true, if_false, hun, hob, hsy]
             exact ⟨trivial, hs, trivial, h4, h5⟩
+          · simp [Mon.next, leaderChange]; exact hi.leader
 
 /-- an effective sync of the remote limiter (reconcile of a global-count schema, or an answer of the schema's type) -/
 theorem inv_of_sync {K : Kind} {cfg : Cfg} {st : State} {m : Mon} {c : Cache} {s : Schema} (hi : Inv K cfg st m)
@@ -1137,7 +1146,7 @@ theorem inv_of_sync {K : Kind} {cfg : Cfg} {st : State} {m : Mon} {c : Cache} {s
         m'.ob = (if (observe cfg { st with cache := some { c with remote := some r' } }).unavail
                   then m.ob.sup (globalOf s) else globalOf s) →
         m'.prev = observe cfg { st with cache := some { c with remote := some r' } } →
-        m'.meter = st.meter → m'.shards = st.shardCount → m'.hist = m.hist →
+        m'.meter = st.meter → m'.shards = st.shardCount → m'.hist = m.hist → m'.leader = st.leader →
         Inv K cfg { st with cache := some { c with remote := some r' } } m' := by
   have hc := hi.cache
   unfold CInv at hc
@@ -1154,13 +1163,13 @@ theorem inv_of_sync {K : Kind} {cfg : Cfg} {st : State} {m : Mon} {c : Cache} {s
   have ea : ap0 = boundByGlobalLimit s i := by rw [e3] at q2; exact (Option.some.inj q2).symm
   subst eg ea
   refine ⟨r', g0, e1, e2, e3, q6, ?_⟩
-  intro m' m1 m2 m3 m4 m5 m6 m7 m8
+  intro m' m1 m2 m3 m4 m5 m6 m7 m8 m9
   have hg : gfcOf { st with cache := some { c with remote := some r' } } = some g0 := by simp [gfcOf, e2]
   have hun : (observe cfg { st with cache := some { c with remote := some r' } }).unavail = g0.unavail := by
     rw [observe_unavail, hg]; rfl
   rw [hun] at m4
   have hob : m'.ob = obAfter m.ob (globalOf s) g0.unavail := by rw [m4]; rfl
-  refine ⟨m6, hi.meterOK, m7, by rw [m8]; exact hi.hb, m5, by rw [m3]; exact VS_globalOK h2, ?_, ?_, ?_⟩
+  refine ⟨m6, hi.meterOK, m7, by rw [m8]; exact hi.hb, m5, by rw [m3]; exact VS_globalOK h2, ?_, ?_, ?_, m9⟩
   · rw [m3, hob]
     cases g0.unavail with
     | true => exact BLe.sup_right _ _
@@ -1193,13 +1202,14 @@ theorem step_noop {K : Kind} {cfg : Cfg} {st : State} {m : Mon} (hi : Inv K cfg 
     (e_schema : (m.next op (observe cfg st)).schema = m.schema)
     (e_rest : (m.next op (observe cfg st)).meter = m.meter ∧ (m.next op (observe cfg st)).shards = m.shards ∧
       (m.next op (observe cfg st)).hist = m.hist ∧
-      (m.next op (observe cfg st)).synced = (m.synced || effective m op))
+      (m.next op (observe cfg st)).synced = (m.synced || effective m op) ∧
+      (m.next op (observe cfg st)).leader = m.leader)
     (hj : judgeTrans m op (observe cfg st) = []) : StepOK K cfg st m op := by
   refine ⟨st, hstep, ?_, hj⟩
   apply inv_of_frame hi (st' := st)
   · rfl
   · exact e_schema
-  · rw [e_rest.2.2.2, heff]; simp
+  · rw [e_rest.2.2.2.1, heff]; simp
   · simp [Mon.next, heff]
   · simp [Mon.next, heff]
   · rfl
@@ -1207,6 +1217,7 @@ theorem step_noop {K : Kind} {cfg : Cfg} {st : State} {m : Mon} (hi : Inv K cfg 
   · exact hi.meterOK
   · rw [e_rest.2.1]; exact hi.shards
   · rw [e_rest.2.2.1]; exact hi.hb
+  · rw [e_rest.2.2.2.2]; exact hi.leader
 
 theorem VS_globalItem {K : Kind} {s : Schema} (h : VS K s) :
     itemType { strategy := s.strategy, mi := s.gmi, tb := s.gtb } = K := by
@@ -1221,7 +1232,7 @@ theorem step_reconcile {K : Kind} {cfg : Cfg} {st : State} {m : Mon} (hi : Inv K
     cases hsch : m.schema with
     | some s0 => rw [hcache, hsch] at hc; exact hc.elim
     | none =>
-      exact step_noop hi _ (by simp [step, hcache]) (by simp [effective, hsch]) rfl ⟨rfl, rfl, rfl, rfl⟩ rfl
+      exact step_noop hi _ (by simp [step, hcache]) (by simp [effective, hsch]) rfl ⟨rfl, rfl, rfl, rfl, rfl⟩ rfl
   | some c =>
     cases hsch : m.schema with
     | none => rw [hcache, hsch] at hc; exact hc.elim
@@ -1248,12 +1259,13 @@ theorem step_reconcile {K : Kind} {cfg : Cfg} {st : State} {m : Mon} (hi : Inv K
             · rfl
             · simp [Mon.next]; exact hi.meter
             · simp [Mon.next]; exact hi.shards
-            · simp [Mon.next]
+            · simp [Mon.next, leaderChange]
+            · simp [Mon.next, leaderChange]; exact hi.leader
         · have hen' : enableGlobal s = false := by simpa using hen
           exact step_noop hi _ (by simp [step, hcache, h1, hcount, hen']) (by simp [effective, hsch, hen'])
-            rfl ⟨rfl, rfl, rfl, rfl⟩ rfl
+            rfl ⟨rfl, rfl, rfl, rfl, rfl⟩ rfl
       · exact step_noop hi _ (by simp [step, hcache, h1, hcount]) (by simp [effective, hsch, hcount])
-          rfl ⟨rfl, rfl, rfl, rfl⟩ rfl
+          rfl ⟨rfl, rfl, rfl, rfl, rfl⟩ rfl
 
 theorem step_answer {K : Kind} {cfg : Cfg} {st : State} {m : Mon} (hi : Inv K cfg st m) (named : Bool) (item : Item) :
     StepOK K cfg st m (.answer named item) := by
@@ -1261,7 +1273,7 @@ theorem step_answer {K : Kind} {cfg : Cfg} {st : State} {m : Mon} (hi : Inv K cf
   unfold CInv at hc
   cases named with
   | false =>
-    refine step_noop hi _ ?_ rfl rfl ⟨rfl, rfl, rfl, rfl⟩ rfl
+    refine step_noop hi _ ?_ rfl rfl ⟨rfl, rfl, rfl, rfl, rfl⟩ rfl
     simp only [step]; cases st.cache <;> rfl
   | true =>
   cases hcache : st.cache with
@@ -1270,7 +1282,7 @@ theorem step_answer {K : Kind} {cfg : Cfg} {st : State} {m : Mon} (hi : Inv K cf
     | some s0 => rw [hcache, hsch] at hc; exact hc.elim
     | none =>
       have heff : effective m (.answer true item) = false := by simp [effective, hsch]
-      exact step_noop hi _ (by simp [step, hcache]) heff rfl ⟨rfl, rfl, rfl, rfl⟩ (by simp [judgeTrans, heff])
+      exact step_noop hi _ (by simp [step, hcache]) heff rfl ⟨rfl, rfl, rfl, rfl, rfl⟩ (by simp [judgeTrans, heff])
   | some c =>
     cases hsch : m.schema with
     | none => rw [hcache, hsch] at hc; exact hc.elim
@@ -1296,7 +1308,8 @@ theorem step_answer {K : Kind} {cfg : Cfg} {st : State} {m : Mon} (hi : Inv K cf
             · rfl
             · simp [Mon.next]; exact hi.meter
             · simp [Mon.next]; exact hi.shards
-            · simp [Mon.next]
+            · simp [Mon.next, leaderChange]
+            · simp [Mon.next, leaderChange]; exact hi.leader
           · simp only [judgeTrans, heff, Bool.true_and, hsch, observe_wkind, observe_rlim, hg, Option.map_some,
               Option.getD_some]
             cases g' with
@@ -1304,11 +1317,11 @@ theorem step_answer {K : Kind} {cfg : Cfg} {st : State} {m : Mon} (hi : Inv K cf
             | miw w => simp [GFC.wkind]
             | tbw w => simp [GFC.wkind]
         · have heff : effective m (.answer true item) = false := by simp [effective, hsch, hty]
-          exact step_noop hi _ (by simp [step, hcache, h1, hen, hty]) heff rfl ⟨rfl, rfl, rfl, rfl⟩
+          exact step_noop hi _ (by simp [step, hcache, h1, hen, hty]) heff rfl ⟨rfl, rfl, rfl, rfl, rfl⟩
             (by simp [judgeTrans, heff])
       · have hen' : enableGlobal s = false := by simpa using hen
         have heff : effective m (.answer true item) = false := by simp [effective, hsch, hen']
-        exact step_noop hi _ (by simp [step, hcache, h1, hen']) heff rfl ⟨rfl, rfl, rfl, rfl⟩
+        exact step_noop hi _ (by simp [step, hcache, h1, hen']) heff rfl ⟨rfl, rfl, rfl, rfl, rfl⟩
           (by simp [judgeTrans, heff])
 
 theorem observe_miw {cfg : Cfg} {st : State} {w : MIW} (h : gfcOf st = some (.miw w)) :
@@ -1346,10 +1359,10 @@ theorem inv_of_setLimit {K : Kind} {cfg : Cfg} {st : State} {m : Mon} {c : Cache
       (observe cfg { st with cache := some { c with remote := some { rm with fc := some g' } }, lastRet := b })).ob
       = obAfter m.ob m.gs g'.unavail := by
     simp only [Mon.next, effective, Bool.false_eq_true, if_false, hun]; rfl
-  refine ⟨?_, hi.meterOK, ?_, ?_, rfl, ?_, ?_, ?_, ?_⟩
+  refine ⟨?_, hi.meterOK, ?_, ?_, rfl, ?_, ?_, ?_, ?_, (by simp [Mon.next, leaderChange]; exact hi.leader)⟩
   · simp [Mon.next]; exact hi.meter
   · simp [Mon.next]; exact hi.shards
-  · simp [Mon.next]; exact hi.hb
+  · simp [Mon.next, leaderChange]; exact hi.hb
   · simp [Mon.next, effective]; exact hi.gsOK
   · rw [hob]
     simp only [Mon.next, effective, Bool.false_eq_true, if_false]
@@ -1386,7 +1399,7 @@ theorem step_setLimit {K : Kind} {cfg : Cfg} {st : State} {m : Mon} (hi : Inv K 
   unfold CInv at hc
   have noop : gfcOf st = none → step st (.setLimit r) = .ok st → StepOK K cfg st m (.setLimit r) := by
     intro hg hs
-    refine step_noop hi _ hs rfl rfl ⟨rfl, rfl, rfl, rfl⟩ ?_
+    refine step_noop hi _ hs rfl rfl ⟨rfl, rfl, rfl, rfl, rfl⟩ ?_
     simp [judgeTrans, judgeSetLimit, hi.prev, observe_wkind0 hg]
   cases hcache : st.cache with
   | none => exact noop (by simp [gfcOf, hcache]) (by simp [step, hcache])
@@ -1440,6 +1453,72 @@ theorem step_setLimit {K : Kind} {cfg : Cfg} {st : State} {m : Mon} (hi : Inv K 
             exact e4
 
 
+/-- a server-info sync: only a CHANGED leader for the cluster's shard counts as a success in the heartbeat history -/
+theorem step_sync {K : Kind} {cfg : Cfg} {st : State} {m : Mon} (hi : Inv K cfg st m) (fail : Bool) (n : Nat)
+    (leader : Option Nat) (now : Int) : StepOK K cfg st m (.sync fail n leader now) := by
+  have hl := hi.leader
+  cases fail with
+  | true =>
+    refine ⟨st, rfl, ?_, rfl⟩
+    apply inv_of_frame hi (st' := st)
+    · rfl
+    · simp [Mon.next]
+    · simp [Mon.next, effective]
+    · simp [Mon.next, effective]
+    · simp [Mon.next, effective]
+    · rfl
+    · simp [Mon.next]; exact hi.meter
+    · exact hi.meterOK
+    · simp [Mon.next]; exact hi.shards
+    · simp [Mon.next, leaderChange]; exact hi.hb
+    · simp [Mon.next, leaderChange]; exact hi.leader
+  | false =>
+    cases leader with
+    | none =>
+      refine ⟨{ st with shardCount := n }, rfl, ?_, rfl⟩
+      apply inv_of_frame hi (st' := { st with shardCount := n })
+      · rfl
+      · simp [Mon.next]
+      · simp [Mon.next, effective]
+      · simp [Mon.next, effective]
+      · simp [Mon.next, effective]
+      · rfl
+      · simp [Mon.next]; exact hi.meter
+      · exact hi.meterOK
+      · simp [Mon.next]
+      · simp [Mon.next, leaderChange]; exact hi.hb
+      · simp [Mon.next, leaderChange]; exact hi.leader
+    | some l =>
+      by_cases hne : st.leader = l
+      · refine ⟨{ st with shardCount := n }, by simp [step, hne], ?_, rfl⟩
+        apply inv_of_frame hi (st' := { st with shardCount := n })
+        · rfl
+        · simp [Mon.next]
+        · simp [Mon.next, effective]
+        · simp [Mon.next, effective]
+        · simp [Mon.next, effective]
+        · rfl
+        · simp [Mon.next]; exact hi.meter
+        · exact hi.meterOK
+        · simp [Mon.next]
+        · simp [Mon.next, leaderChange, hl, hne]; exact hi.hb
+        · simp [Mon.next, leaderChange, hl, hne]
+      · refine ⟨{ st with shardCount := n, leader := l, hb := some (hbStep (st.hb.getD {}) true now) },
+          by simp [step, hne], ?_, rfl⟩
+        apply inv_of_frame hi
+          (st' := { st with shardCount := n, leader := l, hb := some (hbStep (st.hb.getD {}) true now) })
+        · rfl
+        · simp [Mon.next]
+        · simp [Mon.next, effective]
+        · simp [Mon.next, effective]
+        · simp [Mon.next, effective]
+        · rfl
+        · simp [Mon.next]; exact hi.meter
+        · exact hi.meterOK
+        · simp [Mon.next]
+        · simp [Mon.next, leaderChange, hl, hne]; exact hbStep_inv hi.hb true now
+        · simp [Mon.next, leaderChange, hl, hne]
+
 /-- every operation allowed by `OpOK` runs without panic, preserves the invariant, and the judge accepts it -/
 theorem step_inv {K : Kind} {cfg : Cfg} {st : State} {m : Mon} {op : Op} (hi : Inv K cfg st m) (hop : OpOK K op) :
     ∃ st', step st op = .ok st' ∧ Inv K cfg st' (m.next op (observe cfg st')) ∧
@@ -1448,6 +1527,7 @@ theorem step_inv {K : Kind} {cfg : Cfg} {st : State} {m : Mon} {op : Op} (hi : I
     cases op with
     | schema s => exact step_schema hi s hop
     | shards n => exact step_shards hi n
+    | sync fail n leader now => exact step_sync hi fail n leader now
     | hb ok now other => exact step_hb hi ok now other
     | reconcileCount => exact step_reconcile hi
     | answer named item => exact step_answer hi named item
@@ -1543,6 +1623,7 @@ theorem monLe_next {m : Mon} {G : Bound} (h : MonLe m G) (op : Op) (o : Obs)
       subst this
       exact hop s rfl
     | shards _ => exact h.sch s hs
+    | sync _ _ _ _ => exact h.sch s hs
     | hb _ _ _ => exact h.sch s hs
     | reconcileCount => exact h.sch s hs
     | answer _ _ => exact h.sch s hs
